@@ -73,10 +73,12 @@ MulDecOk(x, y, mode, o) ==
   \/ ShortCutOk(x, y, o)
   \/ IF pq <= MaxFrac THEN RetOrFail(o, prod, pq)
      ELSE RetOrFail(o, RoundQ(prod, ZPow10(pq - MaxFrac), mode), MaxFrac)
+\* checked_mul: "the exact product or None" - the statement pins the value, not the representation
 CheckedMulDecOk(x, y, o) ==
-  LET pq == x.f + y.f IN
+  LET pq == x.f + y.f  prod == ZMul(x.c, y.c) IN
   \/ ShortCutOk(x, y, o)
-  \/ IF pq <= MaxFrac THEN RetOrFail(o, ZMul(x.c, y.c), pq) ELSE IsFail(o)
+  \/ IF pq <= MaxFrac THEN SameValue(o, prod, pq) \/ (IsFail(o) /\ (~InRange(prod) \/ ZEq(prod, CoeffMin)))
+     ELSE IsFail(o)
 \* Decimal d by integer i (either position; operator and checked form): exact at d's scale
 MulIntOk(d, i, o) == RetOrFail(o, ZMul(d.c, i), d.f)
 
